@@ -144,6 +144,11 @@ def step (line : String) : String :=
   | "plan" => stepPlan secs
   | "cond" => stepCond secs
   | "memo" => stepMemo secs
+  | "method" => match words (secs.headD "") with
+    | ["method", sp] => match resolveMethod (if sp = "-" then none else some sp) with
+      | some m => m.name
+      | none => "err:bad"
+    | _ => "bad-op"
   | _ => "bad-op"
 
 end IrisVerif.Driver.C07
